@@ -42,6 +42,34 @@ enum Site {
     SITE_QUAD            = 12,  // dc mesher: p -> uint64_t[6]
     SITE_TREE_STEP       = 13,  // refcount step (a = kind, b = observed value, p = node)
     SITE_RESET_TICK      = 14,  // object pool reset tick
+    // --- C11 / C20 (render control flow, worker pools, progress accounting)
+    SITE_POOL_ANNOUNCE   = 20,  // WorkerPool::build: a = announced tick total, b = root level, p = root
+    SITE_POOL_PUSH       = 21,  // worker pool: about to push child b of the cell being evaluated (p = child)
+    SITE_POOL_PUSH_LOCAL = 22,  // ... the bounded push failed, child went to the local stack (p = child)
+    SITE_POOL_COLLECT    = 23,  // collectChildren(p) was called: a = 1 if it returned true (saw pending == 0)
+    SITE_DUAL_ANNOUNCE   = 24,  // Dual::walk_: a = announced tick total, p = root
+    SITE_DUAL_PUSH       = 25,  // dual walk: about to push child p
+    SITE_DUAL_PUSH_LOCAL = 26,
+    SITE_DUAL_LEAF       = 27,  // dual walk: non-branch, non-singleton cell p handled
+    SITE_DUAL_PENDING    = 28,  // dual walk: pending-- on p; a = 1 if it observed 0 (work(p) follows)
+    SITE_DUAL_TICK       = 29,  // dual walk: progress tick (a = count)
+    SITE_INDEX_PENDING   = 30,  // assignIndices worker: pending-- on p; a = 1 if it observed 0
+    SITE_INDEX_LEAF      = 31,  // assignIndices worker: leaf p processed
+    SITE_RESET_POOL      = 32,  // ObjectPool::reset: a = workers after the clamp, b = blocks in this pool, p = pool
+    SITE_RESET_ANNOUNCE  = 33,  // Root::reset: a = announced num_blocks, b = 1 if a progress handler is set
+    SITE_PROGRESS        = 34,  // ProgressHandler: a = event (PROGRESS_*), b = payload, p = handler
+};
+
+/*  Phase ids for SITE_RENDER_PHASE */
+enum Phase {
+    PHASE_BUILD = 1, PHASE_INDEX = 2, PHASE_WALK = 3, PHASE_TOP_EDGES = 4,
+    PHASE_COLLECT = 5, PHASE_RESET = 6, PHASE_RETURN = 7,
+};
+
+/*  Event ids for SITE_PROGRESS */
+enum ProgressEvent {
+    PROGRESS_START = 1, PROGRESS_NEXT_PHASE = 2, PROGRESS_FINISH = 3,
+    PROGRESS_FINISH_JOINED = 4, PROGRESS_THREAD_BEGIN = 5, PROGRESS_THREAD_END = 6,
 };
 
 }   // namespace verif
